@@ -1,6 +1,7 @@
 package metadatastore
 
 import (
+	"encoding/json"
 	"errors"
 	"fmt"
 	"unicode/utf8"
@@ -51,6 +52,32 @@ func (ok ObjectKey) Equals(other ObjectKey) bool {
 // IsEmpty returns true if the ObjectKey is the zero value.
 func (ok ObjectKey) IsEmpty() bool {
 	return ok.value == ""
+}
+
+// MarshalJSON encodes the object key as a JSON string. Without it the key is
+// lost when a struct holding an ObjectKey is serialized (the only field is
+// unexported).
+func (ok ObjectKey) MarshalJSON() ([]byte, error) {
+	return json.Marshal(ok.value)
+}
+
+// UnmarshalJSON decodes an object key from a JSON string. The empty string
+// yields the zero value.
+func (ok *ObjectKey) UnmarshalJSON(data []byte) error {
+	var value string
+	if err := json.Unmarshal(data, &value); err != nil {
+		return err
+	}
+	if value == "" {
+		*ok = ObjectKey{}
+		return nil
+	}
+	key, err := NewObjectKey(value)
+	if err != nil {
+		return err
+	}
+	*ok = key
+	return nil
 }
 
 // validateObjectKey validates an object key against S3 naming rules.
